@@ -8,7 +8,7 @@ CLAIMED = {
  "C03": ("3.2 C03", "World B discrete-event simulation: HOTP tokens and a verifier over a lossy/duplicating/delaying/corrupting transport with lost submissions, token crash-restart and replays; every ValidateHOTP verdict is compared with membership of the delivered string in the window set built with the library's own generator for the counters the simulator knows to be inside the window"),
  "C04": ("3.2 C04", "World B discrete-event simulation: TOTP tokens and verifier with per-node clocks (offset, drift, jumps), network delay and aimed clock faults; every ValidateTOTP verdict is compared with membership in the step-window set; refusal of skew>10 and bounded work are judged with the statement work meter"),
  "C06": ("3.2 C06", "World B discrete-event simulation of OCRA challenge/response sessions with lost, duplicated, reordered and corrupted challenges and answers, diverging counters/clocks/PIN/session/suite and inadmissible verifier input; every ValidateOCRA verdict is compared with GenerateOCRA called alone on the verifier's view"),
- "C13": ("3.2 C13", "invariant riding on every verifier call and every failing operation of the World B simulation (all failure causes injected as faults): verdict is (true,nil) or (false,err); no error text contains the secret or an acceptable code"),
+ "C13": ("3.2 C13", "invariant riding on every verifier call and every failing operation of the World B simulation (all failure causes injected as faults): verdict is (true,nil) or (false,err); no error text contains the secret or an acceptable code; a quarter of the workers judge the same (ok, err) pairs in World A (baton scheduler, callers repeating each other's exact calls) for validations made while other callers are inside the library"),
  "C08": ("3.1 C08", "World A: crypto/rand.Reader replaced by a plan-determined, chunking, logging stream; 1-16 tasks call RandomSecret under the seeded baton scheduler; per-call and per-run conservation oracle over the bytes the reader handed out"),
  "C11": ("3.1 C11", "World A: seeded baton scheduler over an instrumented copy (yield before every statement), simulated sync.Pool (steal/miss/poison/drain/adversary), race-detector build with invisible baton; every concurrent result is compared with the same call executed alone, retained results are re-checked"),
  "C12": ("3.1 C12", "World A workload with canary arenas around every byte argument (all len/cap relations), shared parameter structs, scribbled results; arenas, argument copies, package defaults and suite registry compared after every call and at the end of every simulated history"),
@@ -57,7 +57,7 @@ m = {
  "setup_cmd": f"{ENV} go1.26.8 build -o bin/verif ./cmd/verif",
  "hooks": {
    "guard": "verif",
-   "enable": "no hook is committed in /repo: at check time bin/verif copies /repo's working tree to a scratch directory, splices verifrt.Yield(<site>) in front of every statement of packages otp and internal/app/api (World A additionally redirects sync.Pool/Mutex/RWMutex/Once to simulated versions), adds generated //go:build verif files (verifrt runtime, api.VerifServe accessor) and builds with go1.26.8 -tags verif",
+   "enable": "no hook is committed in /repo: at check time bin/verif copies /repo's working tree to a scratch directory, splices verifrt.Yield(<site>) in front of every statement of packages otp and internal/app/api (World A - and World B as soon as the root package contains a go statement - additionally redirects sync.Pool/Mutex/RWMutex/Once/WaitGroup, go statements, channel operations, close, range over channels and select statements to the scheduler-owned versions in verifrt), adds generated //go:build verif files (verifrt runtime, api.VerifServe accessor) and builds with go1.26.8 -tags verif",
    "baseline_off_cmd": "for m in . ./internal/app; do (cd /repo/$m && go test -vet=off -count=1 ./...) || exit 1; done",
    "source_commits": [],
    "add_only": True,
